@@ -777,3 +777,87 @@ def equality_assumption(body, is_subject):
         return None
 
     return decide
+
+
+# ---------------------------------------------------------------------------
+# `Err(e)?` / `None?`: the Continue edge of the desugared branch is infeasible
+# ---------------------------------------------------------------------------
+def try_known_edges(body):
+    """{switch block: allowed successor} for switches on the result of Try::branch(x) where x is, at that point, a
+    freshly constructed Err/None (only Break is feasible) or Ok/Some (only Continue)"""
+    out = {}
+    for (bb, t, c) in body.call_sites(lambda c: c.decl_path.endswith("Try::branch")):
+        if not t["args"] or not t.get("dest"):
+            continue
+        o = origin(body, t["args"][0], carriers={})
+        variant = None
+        if o[0] == "rv" and o[1].get("k") == "aggr" and o[1].get("adt") in ("std::result::Result", "std::option::Option"):
+            variant = o[1].get("variant")
+        if variant is None:
+            continue
+        sw = find_switch_on_discr(body, t["t"], t["dest"][0])
+        if not sw:
+            continue
+        sb, st = sw
+        m = {v: tgt for v, tgt in st["vals"]}
+        want = 1 if variant in ("Err", "None") else 0
+        if want in m:
+            out[sb] = m[want]
+    return out
+
+
+def reach_try_aware(body, starts):
+    known = try_known_edges(body)
+    seen = set()
+    work = list(starts)
+    while work:
+        b = work.pop()
+        if b in seen:
+            continue
+        seen.add(b)
+        if b in known:
+            work.append(known[b])
+            continue
+        work.extend(body.succs(b))
+    return seen
+
+
+def returns_err(body, blocks):
+    """does the region assign an Err to the return place: `_0 = Err(..)` or `_0 = from_residual(..)` (the `?` exit)"""
+    if assigns_result_variant(body, blocks, "Err"):
+        return True
+    for b in blocks:
+        t = body.term(b)
+        if t["k"] == "call" and "fn" in t and Callee(t["fn"]).decl_path.endswith("FromResidual::from_residual") and t.get("dest") and t["dest"][0] == 0:
+            return True
+    return False
+
+
+# ---------------------------------------------------------------------------
+# wrapper summaries: a local function all of whose paths perform an operation *is* that operation
+# ---------------------------------------------------------------------------
+def wrappers_of(prog, targets, forbid=()):
+    """paths of local functions F such that every entry->return path of F calls one of `targets` (or an already
+    found wrapper) and F calls none of `forbid` (the opposite operation).  Fix-point over wrappers of wrappers."""
+    found = set()
+    targets = set(targets)
+    forbid = set(forbid)
+    changed = True
+    while changed:
+        changed = False
+        for b in prog.bodies.values():
+            if b.path in found or b.path in targets or b.root:
+                continue
+            if not b.path.startswith("svgdx"):
+                continue
+            hits = {bb for (bb, t, c) in b.call_sites(lambda c: c.path in targets or c.path in found)}
+            if not hits:
+                continue
+            if b.call_sites(lambda c: c.path in forbid):
+                continue
+            rets = set(b.return_blocks)
+            if b.reach([0], avoid=hits) & rets:
+                continue  # some path returns without performing the operation
+            found.add(b.path)
+            changed = True
+    return found
